@@ -371,7 +371,13 @@ pub fn par<T: Send>(n: usize, f: impl Fn(usize) -> T + Sync) -> Vec<T> {
             );
         }
         hs.into_iter()
-            .map(|h| h.join().expect("worker thread panicked (harness bug)"))
+            .map(|h| match h.join() {
+                Ok(v) => v,
+                Err(_) => {
+                    println!("INCONCLUSIVE harness worker thread panicked (harness bug)");
+                    std::process::exit(2);
+                }
+            })
             .collect()
     })
 }
